@@ -59,8 +59,8 @@ def DS.op (s : DS) (w : Bool) (o : XOp) : DS :=
       let r := (Nest.mk s.m s.log1 s.log0).cmd (.op o)
       { s with m := r.m, log1 := r.logIn, log0 := r.logOut }
   else
-    let r := (XW.mk s.m (if w then s.log1 else s.log0)).step o
-    if w then { s with m := r.m, log1 := r.log } else { s with m := r.m, log0 := r.log }
+    let r := (X2.mk s.m s.log0 s.log1).step (w, o)
+    { s with m := r.m, log0 := r.log0, log1 := r.log1 }
 
 def DS.boundary (s : DS) (w : Bool) (rollback : Bool) : DS :=
   if s.nested then
@@ -72,10 +72,10 @@ def DS.boundary (s : DS) (w : Bool) (rollback : Bool) : DS :=
     let r := (Nest.mk s.m s.log1 s.log0).cmd c
     { s with m := r.m, log1 := r.logIn, log0 := r.logOut }
   else
-    let x := XW.mk s.m (if w then s.log1 else s.log0)
-    let r := if rollback then x.rollback else x.commit
+    let x := X2.mk s.m s.log0 s.log1
+    let r := if rollback then x.rollback w else x.commit w
     let a := if rollback then s.abs.rollback w else s.abs.commit w
-    if w then { s with m := r.m, log1 := r.log, abs := a } else { s with m := r.m, log0 := r.log, abs := a }
+    { s with m := r.m, log0 := r.log0, log1 := r.log1, abs := a }
 
 def step (s : DS) : List String → DS × String
   | ["reset"] => ({}, "ok")
